@@ -718,7 +718,8 @@ def normalise_mapping_loops(f: Function, mapping: str) -> Function:
     return g
 
 
-def scenario_paths(stmts: List[ast.stmt], env: Dict[str, bool], test_oracle, event_of_call, take_handlers: bool = False):
+def scenario_paths(stmts: List[ast.stmt], env: Dict[str, bool], test_oracle, event_of_call, take_handlers: bool = False,
+                   event_of_stmt=None):
     """Path-sensitive walk of a statement list under a *scenario*: `test_oracle(expr, env)` gives the truth of a test or of an
     assigned value in the scenario (True / False / None = both ways), locals assigned a known truth value are tracked in `env`,
     `event_of_call(call)` names the calls of interest.  Returns the (env, events) reached at the end of the list on every
@@ -757,6 +758,10 @@ def scenario_paths(stmts: List[ast.stmt], env: Dict[str, bool], test_oracle, eve
         if not isinstance(st, (ast.If, ast.Try, ast.For, ast.While, ast.With)):
             for c in [n for n in ast.walk(st) if isinstance(n, ast.Call)]:
                 k = event_of_call(c)
+                if k:
+                    ev = ev + [k]
+            if event_of_stmt is not None:
+                k = event_of_stmt(st)
                 if k:
                     ev = ev + [k]
         if isinstance(st, (ast.Assign, ast.AnnAssign)) and getattr(st, "value", None) is not None:
